@@ -101,7 +101,9 @@ func run(p program) string {
 			name := p.Names[idx]
 			subs[idx] = lib.NewScriptSub("")
 			pubs[idx] = lib.NewScriptPub("")
-			handles[idx] = router.AddHandler(name, "in", subs[idx], "out", pubs[idx], func(msg *message.Message) ([]*message.Message, error) {
+			// the publish topic is any string, also the empty one: decorators belong to the handler's publisher, not to a topic
+			pubTopic := []string{"out", ""}[idx%2]
+			handles[idx] = router.AddHandler(name, "in", subs[idx], pubTopic, pubs[idx], func(msg *message.Message) ([]*message.Message, error) {
 				hn := msg.Metadata.Get("handler")
 				mu.Lock()
 				traces[hn] = append(traces[hn], "handler "+name)
